@@ -33,6 +33,7 @@ import (
 func init() {
 	families["http2.conv"] = &Family{Gen: genHttp2Conv, Run: runHttp2Conv}
 	families["http2.raw"] = &Family{Gen: genHttp2Raw, Run: runHttp2Conv}
+	families["http2.order"] = &Family{Gen: genHttp2Conv, Run: runHttp2Order}
 }
 
 func encH2Half(isClient bool, frames sx.Sx) []byte {
@@ -156,7 +157,15 @@ func h2Data(body []byte) (int, []byte) {
 	return len(d), first
 }
 
-func runHttp2Conv(p sx.Sx) sx.Sx {
+func runHttp2Conv(p sx.Sx) sx.Sx { return runHttp2Ordered(p, true, false) }
+
+// http2.order: the conversation of http2.conv dissected client half first and server half first:
+// the items (as a set) and what is left in the matcher must be the same.
+func runHttp2Order(p sx.Sx) sx.Sx {
+	return sx.L(sx.L(sx.A("cs"), runHttp2Ordered(p, true, true)), sx.L(sx.A("sc"), runHttp2Ordered(p, false, true)))
+}
+
+func runHttp2Ordered(p sx.Sx, clientFirst bool, sorted bool) sx.Sx {
 	cb, sb := encH2Half(true, p.List[0]), encH2Half(false, p.List[1])
 	d := httpExt.NewDissector()
 	stats := &api.AppStats{}
@@ -171,8 +180,14 @@ func runHttp2Conv(p sx.Sx) sx.Sx {
 		_ = d.Dissect(bufio.NewReader(bytes.NewReader(b)), r)
 		return "ok"
 	}
-	ck := half(cb, conn.Client)
-	sk := half(sb, conn.Server)
+	var ck, sk string
+	if clientFirst {
+		ck = half(cb, conn.Client)
+		sk = half(sb, conn.Server)
+	} else {
+		sk = half(sb, conn.Server)
+		ck = half(cb, conn.Client)
+	}
 	close(out)
 	items := []sx.Sx{sx.A("items")}
 	for it := range out {
@@ -191,6 +206,10 @@ func runHttp2Conv(p sx.Sx) sx.Sx {
 			sx.L(sx.A("req"), sx.S(method), h2Headers(qd["headers"]), sx.N(ql), sx.B(qf)),
 			sx.L(sx.A("resp"), sx.N(int(status)), h2Headers(rd["headers"]), sx.N(rl), sx.B(rf)),
 			sx.A(it.Protocol.Abbreviation)))
+	}
+	if sorted {
+		rest := items[1:]
+		sort.Slice(rest, func(i, j int) bool { return rest[i].String() < rest[j].String() })
 	}
 	nreq, nresp := 0, 0
 	conn.Matcher.GetMap().Range(func(k, v interface{}) bool {
@@ -222,9 +241,16 @@ func genHttp2Conv(r *Rand, tier string, emit func(sx.Sx)) {
 			sid := 2*s + 1
 			grpcReq := r.Chance(30)
 			grpcResp := grpcReq && r.Chance(85)
+			if !grpcReq && r.Chance(10) { // a gRPC marker on the response only (transcoding gateways)
+				grpcResp = true
+			}
 			// request
 			rh := []sx.Sx{kv(":method", []string{"GET", "POST"}[r.Intn(2)]), kv(":scheme", "http"), kv(":path", paths[r.Intn(len(paths))]), kv(":authority", "svc.example"),
 				kv("x-request-id", fmt.Sprintf("id-%d-%d", i, s)), kv("user-agent", "ua/1.0")}
+			if r.Chance(25) { // field names that repeat, other fields in between (cookie crumbs, list-valued headers)
+				rh = append(rh, kv("cookie", "sid=abc"), kv("accept", "text/html"), kv("cookie", "theme=dark"), kv("x-multi", "one"),
+					kv("accept-language", "en"), kv("x-multi", "two"), kv("cookie", fmt.Sprintf("n=%d", s)), kv("x-last", "z"))
+			}
 			if grpcReq {
 				rh = append(rh, kv("content-type", "application/grpc+proto"), kv("te", "trailers"))
 			} else if r.Bool() {
@@ -242,6 +268,10 @@ func genHttp2Conv(r *Rand, tier string, emit func(sx.Sx)) {
 			}
 			// response
 			sh := []sx.Sx{kv(":status", []string{"200", "404", "500"}[r.Intn(3)]), kv("server", "srv"), kv("x-request-id", fmt.Sprintf("id-%d-%d", i, s))}
+			if r.Chance(25) {
+				sh = append(sh, kv("set-cookie", "a=1; Path=/"), kv("cache-control", "no-store"), kv("set-cookie", "b=2; Path=/"), kv("vary", "accept"),
+					kv("x-multi", "one"), kv("vary", "cookie"), kv("x-multi", "two"), kv("x-last", "z"))
+			}
 			if grpcResp {
 				sh = append(sh, kv("content-type", "application/grpc"))
 			}
@@ -262,6 +292,9 @@ func genHttp2Conv(r *Rand, tier string, emit func(sx.Sx)) {
 			}
 			if trailers {
 				th := []sx.Sx{kv("x-trailer", "t")}
+				if r.Chance(25) {
+					th = append(th, kv("x-check", "a"), kv("x-other", "o"), kv("x-check", "b"), kv("x-end", "e"))
+				}
 				if grpcResp || r.Chance(20) {
 					th = append(th, kv("grpc-status", "0"), kv("grpc-message", ""))
 				}
